@@ -46,7 +46,7 @@ impl Prop for C17 {
     }
 
     fn cases(tier: Tier) -> u64 {
-        tier.pick(6_000, 100_000)
+        tier.pick(100_000, 1_000_000)
     }
 
     fn strategy(tier: Tier) -> BoxedStrategy<Case> {
